@@ -7,7 +7,7 @@ from . import geom
 
 SPEC = dict(
     technique='Lean 4 proof (skew/vex, adjoint homomorphism, Jacobians, delta maps; regenerated model) + float monitor',
-    lean_modules=['SmVerif.Props.C13', 'SmVerif.Props.Structure'],
+    lean_modules=['SmVerif.Props.C13', 'SmVerif.Props.Structure', 'SmVerif.Props.VecPreds'],
     groups=['TransformsNd', 'Transforms3d', 'Transforms2d', 'Vectors', 'Poses'],
     expected_untranslatable=('trinterp_T', 'trinterp_T_nostart'),
     partial=['exp(ad S) = Ad(exp S) and first-order agreement of tr2delta with the logarithm are explored numerically'],
